@@ -806,14 +806,21 @@ def correspondence(ctx, model_ok):
     # (b) the model's own trace is stable when the root finder's answers are moved inside brentq's own tolerance (xtol = 2e-12: any such
     #     value is a legitimate answer of the oracle) and the start point / linear term by <= 2 ulp.  SPG on non-convex problems amplifies
     #     rounding differences (dot-product summation order) by ~10x per iteration; such runs are counted as unstable, not as agreeing.
-    NPERT = 5
+    NPERT = 8
     pex = []
     for i, what, mres, mev in pending:
         c, o = cases[i], outs[i]
         rr = ctx.rng('perturb%d' % i)
         for k in range(NPERT):
-            o2 = dict(o, brents=[t * (1.0 + rr.uniform(-1, 1) * 1e-12) + rr.uniform(-1, 1) * 1e-13 for t in o['brents']])
-            c2 = dict(c, b=[t * (1.0 + rr.uniform(-1, 1) * 4.4e-16) for t in c['b']])
+            if k < 5:
+                o2 = dict(o, brents=[t * (1.0 + rr.uniform(-1, 1) * 1e-12) + rr.uniform(-1, 1) * 1e-13 for t in o['brents']])
+                c2 = dict(c, b=[t * (1.0 + rr.uniform(-1, 1) * 4.4e-16) for t in c['b']])
+            else:
+                # exactly one rounding: every component of the start point and of the linear term moved to a NEIGHBOURING binary64 number
+                # (the uniform perturbation above is rounded away for three quarters of the draws)
+                o2 = o
+                c2 = dict(c, x0=[min(max(math.nextafter(t, rr.choice((-math.inf, math.inf))), lo), hi) for t, (lo, hi) in zip(c['x0'], c['bounds'])],
+                          b=[math.nextafter(t, rr.choice((-math.inf, math.inf))) for t in c['b']])
             pex.append(model_expr_full(c2, o2))
     pres = C.coq_eval(IMPORTS, pex, 'C05fp', shard=10, preamble=PREAMBLE, timeout=900) if pex else []
     for j, (i, what, mres, mev) in enumerate(pending):
